@@ -46,14 +46,18 @@ inductive Act
   | closeConn
   deriving Repr, DecidableEq
 
-structure S where
-  cache : Bytes := []
+/-- everything Parse keeps besides the unparsed bytes -/
+structure K where
   message : Option Bytes := none
   msgType : Nat := 0
   compress : Bool := false
   expecting : Bool := false
   connClosed : Bool := false    -- underlying conn closed (Execute refuses, writes fail)
   nwrites : Nat := 0            -- ghost: frames written so far (index into Env.keyAt)
+
+structure S where
+  cache : Bytes := []           -- bytesCached
+  k : K := {}
 
 /-- RFC 3629 / Go utf8.Valid -/
 def utf8Valid : Bytes → Bool
@@ -126,7 +130,7 @@ def writeMessage (g : Cfg) (e : Env) (i : Nat) (opcode : Nat) (data : Bytes) : E
     else .ok [encodeFrame g.isClient (e.keyAt i) opcode true true [] compress]
 
 /-- a WriteMessage issued from a handler: writes fail once the conn is closed -/
-def send (g : Cfg) (e : Env) (s : S) (opcode : Nat) (data : Bytes) : List Act :=
+def send (g : Cfg) (e : Env) (s : K) (opcode : Nat) (data : Bytes) : List Act :=
   if s.connClosed then [] else
   match writeMessage g e s.nwrites opcode data with
   | .ok ws => ws.map Act.write
@@ -140,7 +144,7 @@ def countWrites (acts : List Act) : Nat :=
 def be16 (n : Nat) : Bytes := beEnc 2 n
 
 /-- `handleWsMessage` with the default handlers; returns the actions and whether the conn got closed -/
-def handleWs (g : Cfg) (e : Env) (s : S) (opcode : Nat) (data : Bytes) : List Act × Bool :=
+def handleWs (g : Cfg) (e : Env) (s : K) (opcode : Nat) (data : Bytes) : List Act × Bool :=
   let badUtf8 := be16 1002 ++ (str "invalid UTF-8 bytes")
   match opcode with
   | 2 => ([.deliver 2 data], false)
@@ -186,27 +190,31 @@ structure HdrInfo where
   bodyLen : Int
   headLen : Nat
 
+/-- header fields out of the first two bytes plus the decoded length -/
+def mkHdr (x0 x1 : UInt8) (bodyLen : Int) (headLen : Nat) : HdrInfo :=
+  let masked := x1.toNat / 128 % 2 == 1
+  { opcode := x0.toNat % 16, fin := x0.toNat / 128 % 2 == 1, r1 := x0.toNat / 64 % 2 == 1,
+    r2 := x0.toNat / 32 % 2 == 1, r3 := x0.toNat / 16 % 2 == 1, masked, bodyLen,
+    headLen := if masked && bodyLen ≥ 0 then headLen + 4 else headLen }
+
 /-- first paragraph of nextFrame: none = fewer than two bytes cached -/
 def decodeHdr (cache : Bytes) : Option (Except Err HdrInfo) :=
   match cache with
   | x0 :: x1 :: rest =>
-    let masked := x1.toNat / 128 % 2 == 1
     let pl := x1.toNat % 128
-    let mk (bodyLen : Int) (headLen : Nat) : HdrInfo :=
-      { opcode := x0.toNat % 16, fin := x0.toNat / 128 % 2 == 1, r1 := x0.toNat / 64 % 2 == 1,
-        r2 := x0.toNat / 32 % 2 == 1, r3 := x0.toNat / 16 % 2 == 1, masked, bodyLen,
-        headLen := if masked && bodyLen ≥ 0 then headLen + 4 else headLen }
     if pl == 126 then
-      if rest.length ≥ 2 then some (.ok (mk (Int.ofNat (beDec (rest.take 2))) 4)) else some (.ok (mk (-1) 2))
+      if rest.length ≥ 2 then some (.ok (mkHdr x0 x1 (Int.ofNat (beDec (rest.take 2))) 4)) else some (.ok (mkHdr x0 x1 (-1) 2))
     else if pl == 127 then
       if rest.length ≥ 8 then
         let v := beDec (rest.take 8)
-        if v ≥ 2 ^ 63 then some (.error .invalidFragment) else some (.ok (mk (Int.ofNat v) 10))
-      else some (.ok (mk (-1) 2))
-    else some (.ok (mk (Int.ofNat pl) 2))
+        if v ≥ 2 ^ 63 then some (.error .invalidFragment) else some (.ok (mkHdr x0 x1 (Int.ofNat v) 10))
+      else some (.ok (mkHdr x0 x1 (-1) 2))
+    else some (.ok (mkHdr x0 x1 (Int.ofNat pl) 2))
   | _ => none
 
-def msgLen (s : S) : Nat := match s.message with | some m => m.length | none => 0
+def K.len (k : K) : Nat := match k.message with | some m => m.length | none => 0
+
+def msgLen (s : S) : Nat := s.k.len
 
 /-- second paragraph: the size checks, made as soon as the header is complete.
     A control frame is not part of the message under assembly. -/
@@ -229,7 +237,7 @@ def nextFrame (g : Cfg) (s : S) : NF :=
     | some e => .err e
     | none =>
       if h.bodyLen ≥ 0 ∧ s.cache.length ≥ h.headLen + h.bodyLen.toNat then
-        match validFrame g h.opcode h.fin h.r1 h.r2 h.r3 s.expecting with
+        match validFrame g h.opcode h.fin h.r1 h.r2 h.r3 s.k.expecting with
         | some e => .err e
         | none => .frame (h.headLen + h.bodyLen.toNat) h.opcode (frameBody s.cache h) h.fin h.r1
       else .need
@@ -260,24 +268,30 @@ def growBy (L l : Nat) : Nat :=
   let al := if l > 4194304 then 4194304 else l
   if L > 0 ∧ l + al > L then L - l else al
 
+/-- allocator contract at one read: the capacity is at least what was asked for, and unchanged while the
+    buffer was not reallocated -/
+def capOk (st : RdStep) (need : Nat) (same : Option Nat) : Bool :=
+  decide (st.cap ≥ need) && (match same with | some c => st.cap == c | none => true)
+
+/-- reader contract at one read into `k` free bytes with `r` bytes of output left: no more than offered, no more
+    than there is, and never "nothing, no error" on a non-empty buffer (where the Go loop would spin) -/
+def readOk (st : RdStep) (k r : Nat) : Bool :=
+  decide (st.n ≤ k) && decide (st.n ≤ r) && !(st.n == 0 && st.st == 0 && decide (k > 0))
+
 /-- the loop of readAll. `buf` read so far, `rest` what the inflater still has, `need` the least capacity the
     allocator owes us, `same` = some c when the buffer was not reallocated since the last read (capacity must be c). -/
 def readLoop (L : Nat) : List RdStep → Bytes → Bytes → Nat → Option Nat → RA
   | [], _, _, _, _ => .stuck
   | st :: steps, buf, rest, need, same =>
-    if st.cap < need || (match same with | some c => st.cap != c | none => false) then .stuck else
     let e := clampEnd L st.cap
-    let k := e - buf.length
-    if st.n > k || st.n > rest.length || (st.n == 0 && st.st == 0 && k > 0) then .stuck else
-    let buf := buf ++ rest.take st.n
-    let rest := rest.drop st.n
-    if st.st == 1 then .ok buf
+    if (capOk st need same && readOk st (e - buf.length) rest.length) = false then .stuck else
+    let buf' := buf ++ rest.take st.n
+    if st.st == 1 then .ok buf'
     else if st.st != 0 then .failed
-    else if buf.length == e then
-      let l := buf.length
-      if L > 0 ∧ l + 1 > L then probe buf steps
-      else readLoop L steps buf rest (l + growBy L l) none
-    else readLoop L steps buf rest need (some st.cap)
+    else if buf'.length == e then
+      if L > 0 ∧ buf'.length + 1 > L then probe buf' steps
+      else readLoop L steps buf' (rest.drop st.n) (buf'.length + growBy L buf'.length) none
+    else readLoop L steps buf' (rest.drop st.n) need (some st.cap)
 
 /-- `readAll(r, size)` -/
 def readAll (L size : Nat) (o : InflObs) : RA :=
@@ -291,64 +305,72 @@ structure PR where
   acts : List Act
   err : Option Err
 
-def closeReply (g : Cfg) (e : Env) (s : S) (err : Err) : List Act :=
+def closeReply (g : Cfg) (e : Env) (s : K) (err : Err) : List Act :=
   if err == .tooLarge then send g e s 8 (be16 1009 ++ str "message exceeds the configured limit")
   else if err == .controlTooBig then send g e s 8 (be16 1009 ++ str "websocket: control frame length > 125")
   else []
 
 /-- handing a message to the executor: refused once the conn is closed -/
-def dispatch (g : Cfg) (e : Env) (s : S) (opcode : Nat) (data : Bytes) : S × List Act :=
-  if s.connClosed then (s, [])
+def dispatch (g : Cfg) (e : Env) (k : K) (opcode : Nat) (data : Bytes) : K × List Act :=
+  if k.connClosed then (k, [])
   else
-    let (a, cl) := handleWs g e s opcode data
-    ({ s with connClosed := s.connClosed || cl, nwrites := s.nwrites + countWrites a }, a)
+    let r := handleWs g e k opcode data
+    ({ k with connClosed := k.connClosed || r.2, nwrites := k.nwrites + countWrites r.1 }, r.1)
 
 inductive FR
-  | fail (s : S) (e : Err)
-  | next (s : S) (acts : List Act)
+  | fail (k : K) (e : Err)
+  | next (k : K) (acts : List Act)
 
-/-- data frame paragraph of the Parse closure: assembly, and on FIN inflate + delivery
+/-- the first frame of a message fixes its type and whether it is compressed -/
+def startMsg (k : K) (opcode : Nat) (rsv1 : Bool) : K :=
+  if k.msgType == 0 then { k with msgType := opcode, compress := rsv1 } else k
+
+/-- assembly of the payload (`c.message` stays nil while nothing arrived) -/
+def appendBody (k : K) (body : Bytes) : K :=
+  if body.length > 0 then { k with message := some ((k.message.getD []) ++ body) } else k
+
+/-- FIN: take the message (an empty one if no payload arrived), inflate it if compressed, reset, hand it over -/
+def finishMsg (g : Cfg) (e : Env) (k : K) : FR :=
+  let m := k.message.getD []
+  let k0 : K := { k with message := none }
+  let r : RA := if k.compress then readAll g.msgLimit (m.length * 2) (e.inflate m) else .ok m
+  match r with
+  | .tooLarge => .fail k0 .tooLarge
+  | .failed => .fail k0 .inflate
+  | .stuck => .fail k0 .stuck
+  | .ok out =>
+    let d := dispatch g e { k0 with msgType := 0, compress := false, expecting := false } k.msgType out
+    .next d.1 d.2
+
+/-- data frame paragraph of the Parse closure
     (the cache shift that follows is done by the caller: it is skipped when this paragraph fails) -/
-def dataFrame (g : Cfg) (e : Env) (s : S) (opcode : Nat) (body : Bytes) (fin rsv1 : Bool) : FR :=
-  let s := if s.msgType == 0 then { s with msgType := opcode, compress := rsv1 } else s
-  let mt := s.msgType
-  let s := if body.length > 0 then { s with message := some ((s.message.getD []) ++ body) } else s
-  if fin then
-    let m := s.message.getD []
-    let s := { s with message := none }
-    let r : RA := if s.compress then readAll g.msgLimit (m.length * 2) (e.inflate m) else .ok m
-    match r with
-    | .tooLarge => .fail s .tooLarge
-    | .failed => .fail s .inflate
-    | .stuck => .fail s .stuck
-    | .ok m =>
-      let s := { s with msgType := 0, compress := false, expecting := false }
-      let (s, a) := dispatch g e s mt m
-      .next s a
-  else .next { s with expecting := true } []
+def dataFrame (g : Cfg) (e : Env) (k : K) (opcode : Nat) (body : Bytes) (fin rsv1 : Bool) : FR :=
+  let k := appendBody (startMsg k opcode rsv1) body
+  if fin then finishMsg g e k else .next { k with expecting := true } []
 
 /-- one iteration on a complete frame -/
-def applyFrame (g : Cfg) (e : Env) (s : S) (opcode : Nat) (body : Bytes) (fin rsv1 : Bool) : FR :=
-  if opcode ≤ 2 then dataFrame g e s opcode body fin rsv1
-  else if opcode > 10 then .fail s .invalidFragment
+def applyFrame (g : Cfg) (e : Env) (k : K) (opcode : Nat) (body : Bytes) (fin rsv1 : Bool) : FR :=
+  if opcode ≤ 2 then dataFrame g e k opcode body fin rsv1
+  else if opcode > 10 then .fail k .invalidFragment
   else
-    let (s, a) := dispatch g e s opcode body
-    .next s a
+    let d := dispatch g e k opcode body
+    .next d.1 d.2
+
+/-- the error exit of Parse: 1009 close frame for the two size errors -/
+def failWith (g : Cfg) (e : Env) (cache : Bytes) (k : K) (acts : List Act) (er : Err) : PR :=
+  let a := closeReply g e k er
+  ⟨{ cache, k := { k with nwrites := k.nwrites + countWrites a } }, acts ++ a, some er⟩
 
 def frameLoop (g : Cfg) (e : Env) : Nat → S → List Act → PR
   | 0, s, acts => ⟨s, acts, some .stuck⟩
   | fuel+1, s, acts =>
     match nextFrame g s with
     | .need => ⟨s, acts, none⟩
-    | .err er =>
-      let a := closeReply g e s er
-      ⟨{ s with nwrites := s.nwrites + countWrites a }, acts ++ a, some er⟩
+    | .err er => failWith g e s.cache s.k acts er
     | .frame total opcode body fin rsv1 =>
-      match applyFrame g e s opcode body fin rsv1 with
-      | .fail s er =>
-        let a := closeReply g e s er
-        ⟨{ s with nwrites := s.nwrites + countWrites a }, acts ++ a, some er⟩
-      | .next s' a => frameLoop g e fuel { s' with cache := s'.cache.drop total } (acts ++ a)
+      match applyFrame g e s.k opcode body fin rsv1 with
+      | .fail k er => failWith g e s.cache k acts er
+      | .next k a => frameLoop g e fuel { cache := s.cache.drop total, k } (acts ++ a)
 
 /-- `Conn.Parse(data)` -/
 def parse (g : Cfg) (e : Env) (s : S) (data : Bytes) : PR :=
@@ -359,7 +381,7 @@ def parse (g : Cfg) (e : Env) (s : S) (data : Bytes) : PR :=
     frameLoop g e (s.cache.length + 1) s []
 
 /-- an application `WriteMessage` on this endpoint -/
-def appWrite (g : Cfg) (e : Env) (s : S) (opcode : Nat) (data : Bytes) : S × Except Err (List Bytes) :=
+def appWrite (g : Cfg) (e : Env) (s : K) (opcode : Nat) (data : Bytes) : K × Except Err (List Bytes) :=
   match writeMessage g e s.nwrites opcode data with
   | .error er => (s, .error er)
   | .ok ws => if s.connClosed then (s, .error .closed) else ({ s with nwrites := s.nwrites + ws.length }, .ok ws)
